@@ -21,7 +21,7 @@ import (
 type IncDir struct {
 	Kind    string `json:"kind"`             // file | dangling | glob
 	Target  int    `json:"target,omitempty"` // file index (kind=file)
-	Form    string `json:"form,omitempty"`   // rel | dot | abs | home (kind=file)
+	Form    string `json:"form,omitempty"`   // rel | dot | abs | home | absdot | absup (kind=file)
 	Pattern string `json:"pattern,omitempty"`
 }
 
@@ -551,7 +551,7 @@ func genC10(t *rapid.T) *C10Case {
 				ds = append(ds, IncDir{Kind: "glob", Pattern: rapid.SampledFrom(globs).Draw(t, "pat")})
 			default:
 				ds = append(ds, IncDir{Kind: "file", Target: rapid.IntRange(0, n-1).Draw(t, "target"),
-					Form: rapid.SampledFrom([]string{"rel", "rel", "dot", "abs", "home"}).Draw(t, "form")})
+					Form: rapid.SampledFrom([]string{"rel", "rel", "dot", "abs", "home", "absdot", "absup"}).Draw(t, "form")})
 			}
 		}
 		c.Dirs = append(c.Dirs, ds)
